@@ -182,7 +182,8 @@ class Interp(Engine):
                     out[j] = facs[j].elem(s.arith('%', rest, m))
                     rest = s.arith('//', rest, m)
             return tuple(out)
-        return SymSeq(total, elem, 'product')
+        ranges = all(getattr(f_, 'note', '') == 'range' for f_ in facs)
+        return SymSeq(total, elem, 'product', ([f_.length for f_ in facs], lambda J: tuple(J)) if ranges else None)
 
     def select_list(s, lst, j):
         if isinstance(j, int):
@@ -200,11 +201,15 @@ class Interp(Engine):
         raise Unsupported('symbolic range with start/step')
 
     def zip_(s, a):
-        its = [x for x in a]
+        its = [s.call_method(x, '__iter__', [], {}) if isinstance(x, Obj) else x for x in a]
+        a = its
         if any(isinstance(x, SymSeq) for x in its):
             if not all(isinstance(x, SymSeq) for x in its):
                 raise Unsupported('zip of symbolic and concrete sequences')
-            return SymSeq(its[0].length, lambda j: tuple(x.elem(j) for x in its), 'zip')
+            co = None
+            if all(x.coords is not None for x in its) and all(len(x.coords[0]) == len(its[0].coords[0]) for x in its):
+                co = (its[0].coords[0], lambda J: tuple(x.coords[1](J) for x in its))
+            return SymSeq(its[0].length, lambda j: tuple(x.elem(j) for x in its), 'zip', co)
         return [tuple(x) for x in zip(*[s.iter_(y) for y in a])]
 
     def reversed_(s, v):
@@ -215,7 +220,7 @@ class Interp(Engine):
     def map_(s, f, seqs):
         if len(seqs) == 1 and isinstance(seqs[0], SymSeq):
             q_ = seqs[0]
-            return SymSeq(q_.length, lambda j: s.call(f, [q_.elem(j)], {}), 'map')
+            return q_.derive(lambda e: s.call(f, [e], {}), 'map')
         lists = [s.iter_(x) for x in seqs]
         return [s.call(f, list(xs), {}) for xs in zip(*lists)]
 
@@ -459,6 +464,14 @@ class Interp(Engine):
                 return (len(o.elems),)
             if name == 'ndim':
                 return 1
+            if name == 'reshape':
+                def vreshape(a, k, o=o):
+                    shp = a[0] if len(a) == 1 else tuple(a)
+                    shp = (shp,) if isinstance(shp, int) else tuple(shp)
+                    if len(shp) == 1 and (shp[0] == len(o.elems) or shp[0] == -1):
+                        return o
+                    raise PyRaise('ValueError', note='cannot reshape array')
+                return Builtin('vec.reshape', vreshape)
             if name in ('copy', 'astype', 'any', 'all', 'round', 'tolist', 'item', 'min', 'max', 'sum', 'prod'):
                 return Builtin('vec.' + name, lambda a, k, o=o, name=name: s.vec_method(o, name, a, k))
         if isinstance(o, Sym) or is_conc_num(o):
@@ -472,6 +485,16 @@ class Interp(Engine):
                 return Builtin('round', lambda a, k: s.round_(o))
             if name == 'astype':
                 return Builtin('astype', lambda a, k: s.cast(o, a[0]))
+            if name == 'reshape':
+                def sreshape(a, k, o=o):
+                    shp = a[0] if len(a) == 1 else tuple(a)
+                    shp = (shp,) if isinstance(shp, int) else tuple(shp)
+                    if shp in ((1,), (-1,)):
+                        return Vec([s.npscalar(o)], kind_of(o))
+                    if shp == ():
+                        return o
+                    raise PyRaise('ValueError', note='cannot reshape array of size 1')
+                return Builtin('scalar.reshape', sreshape)
         if isinstance(o, list):
             if name == 'append':
                 return Builtin('append', lambda a, k: o.append(a[0]))
@@ -1231,11 +1254,11 @@ class Interp(Engine):
             g = n.generators[0]
             it = s.ev(g.iter, env)
             if isinstance(it, SymSeq):
-                def elem(j, g=g, it=it):
+                def fe(e, g=g):
                     e2 = Env(env)
-                    s.assign(g.target, it.elem(j), e2)
+                    s.assign(g.target, e, e2)
                     return s.ev(n.elt, e2)
-                return SymSeq(it.length, elem, 'comp')
+                return it.derive(fe, 'comp')
             its = s.iter_(it)
             out = []
             for x in its:
@@ -1458,11 +1481,11 @@ class Interp(Engine):
                 it = s.ev(last.iter, env)
                 yexpr = last.body[0].value.value
                 if isinstance(it, SymSeq):
-                    def elem(j, it=it):
+                    def fe(e):
                         e2 = Env(env)
-                        s.assign(last.target, it.elem(j), e2)
+                        s.assign(last.target, e, e2)
                         return s.ev(yexpr, e2)
-                    return SymSeq(it.length, elem, f'gen:{fn.name}')
+                    return it.derive(fe, f'gen:{fn.name}')
                 out = []
                 for x in s.iter_(it):
                     s.assign(last.target, x, env)
@@ -1518,6 +1541,8 @@ class Interp(Engine):
 
     def ex_For(s, st, env):
         it = s.ev(st.iter, env)
+        if isinstance(it, SymSeq):
+            return s.map_loop(st, it, env)
         broke = False
         for x in s.iter_(it):
             s.assign(st.target, x, env)
@@ -1530,6 +1555,14 @@ class Interp(Engine):
                 continue
         if not broke:
             s.exec_block(st.orelse, env)
+
+    def map_loop(s, st, it, env):
+        """map-loop rule (DESIGN §2.2 ii): a loop over a full index box whose body only writes out[index] for the
+        loop's own index.  Justified by: the sequence enumerates fn(J) for every J of the box exactly once
+        (itertools.product over ranges [A]) and the written index is a permutation of J."""
+        h = s.ext('map_loop', st, it, env)
+        if h is NotImplemented or h is None:
+            raise Unsupported('loop over a symbolic-length sequence outside the map-loop rule')
 
     def ex_While(s, st, env):
         n = 0
